@@ -75,9 +75,14 @@ func Leftover(t *Target, kind string, rng *rand.Rand) bool {
 		return false
 	}
 	left := fullsLeft(ls, pub)
+	// "missing-names" etc.: the leftover is wanted on a tile of that kind
+	kind, only, _ := strings.Cut(kind, "-")
 	pick := func(withPdir, withoutPdir bool) (TileID, bool) {
 		var c []TileID
 		for _, x := range left {
+			if only != "" && x.K != only {
+				continue
+			}
 			h := hasPdir(dir, mode, x)
 			if (h && withPdir) || (!h && withoutPdir) {
 				c = append(c, x)
@@ -167,6 +172,9 @@ func Leftover(t *Target, kind string, rng *rand.Rand) bool {
 		}
 	default:
 		panic("unknown leftover " + kind)
+	}
+	if only != "" {
+		kind += "-" + only
 	}
 	t.Tags = append(t.Tags, kind)
 	return true
